@@ -170,7 +170,10 @@ class DesignProperty:
     def strategy(self, tier):
         if self._strategy is not None:
             return self._strategy(self.cfg[tier])
-        return G.design_spec(self.cfg[tier])
+        c = self.cfg[tier]
+        if c.get("scenarios", True) and "cross" in c["blocks"]:
+            return G.mixed_spec(c)          # half random designs, half constructed feature-interaction scenarios
+        return G.design_spec(c)
 
     # ---- one case
     def run_case(self, spec, tier, acc=None):
